@@ -1,4 +1,6 @@
 import ArrowModel.C01.Lemmas
+import ArrowModel.C01.Kernels
+import ArrowModel.C01.Safe
 /-
 C01 property statements: *every array returned by a safe API is a well-formed Arrow array*.
 
@@ -13,7 +15,13 @@ theorems below add
       `take_bytes` / `filter_bytes` (start at 0, non-decreasing, consecutive difference = slot length,
       last = length of the copied data), offset rebasing of `append_array` / `concat_bytes`,
       and the exact null count of `filter_nulls` / `take_nulls`;
-  (c) `WellFormed d → SafeAccess d` for the leaf layouts (`…_partial`).
+      full preservation `WellFormed in → WellFormed (K in)` for fixed-width take/filter and for
+      take_bytes / filter_bytes, and the builder invariant of `append_array` (concat) — `Kernels.lean`:
+      `takeFixed_wellFormed`, `filterFixed_wellFormed`, `gatherBytes_wellFormed`, `takeBytes_wellFormed`,
+      `filterBytes_wellFormed`, `nullsOk_mkNulls` / `countNulls_packBits` (Lemmas), `rebase_pairwise`,
+      `rebase_getLast`, `appendArray_inv`, `concat_offsets_ok`;
+  (c) `WellFormed d → SafeAccess d` (`Safe.lean`): `wellFormed_safeAccess_partial` for every tree of leaf,
+      List/LargeList, FixedSizeList and Dictionary nodes; Struct, RunEndEncoded and Union are the gap.
 -/
 namespace ArrowModel.C01
 open ArrowModel.Physical
@@ -92,5 +100,19 @@ theorem filterFixed_len (d : ArrayData) (mask : List Bool) : (filterFixed d mask
   simp [filterFixed, takeFixed, maskIndices_length]
 
 example : (filterFixed ⟨.prim 2, 3, 1, none, [[9,9, 1,0, 2,0, 3,0]], []⟩ [true, false, true]).buffers = [[1,0, 3,0]] := by decide
+
+
+/-! ### non-trivial instances of the preservation theorems' hypotheses -/
+
+/-- a sliced Utf8 array with a null and a multi-byte character -/
+def exUtf8 : ArrayData := ⟨.utf8 false, 3, 1, some ⟨[0b1011], 1, 3, 1⟩,
+    [[0,0,0,0, 1,0,0,0, 1,0,0,0, 3,0,0,0, 4,0,0,0], [0x61, 0xC3, 0xA9, 0x7A]], []⟩
+
+example : WellFormed exUtf8 := by decide
+example : WellFormed (takeBytes exUtf8 [some 2, none, some 1, some 0]) := by decide
+example : WellFormed (filterBytes exUtf8 [true, false, true]) := by decide
+example : (takeBytes exUtf8 [some 2, none, some 1, some 0]).nulls.map (·.nullCount) = some 2 := by decide
+example : SafeAccess exUtf8 := wellFormed_safeAccess_leaf_partial exUtf8 (by decide) (Or.inr (Or.inr (Or.inr (Or.inr (Or.inr ⟨false, rfl⟩)))))
+example : WellFormed (takeFixed ⟨.prim 2, 3, 1, some ⟨[0b0110], 1, 3, 1⟩, [[9,9, 1,0, 2,0, 3,0]], []⟩ [some 2, none, some 0]) := by decide
 
 end ArrowModel.C01
